@@ -404,7 +404,7 @@ func adapters() []*adapter {
 	for _, n := range []int{1, 2} {
 		n := n
 		as = append(as, &adapter{
-			name: fmt.Sprintf("iterator.FromChannel/%d", n), arity: n, params: pow(len(msgErrTerms)+1, n), asyncStop: true, lazyInputs: true, racyUnderCancel: true, quickLen: 4 - n,
+			name: fmt.Sprintf("iterator.FromChannel/%d", n), arity: n, params: pow(len(msgErrTerms)+1, n), asyncStop: true, lazyInputs: true, racyUnderCancel: true, cancelClassIsEnd: true, quickLen: 4 - n,
 			paramDesc: func(p int) string {
 				s := "messages:"
 				for i := 0; i < n; i++ {
@@ -417,7 +417,7 @@ func adapters() []*adapter {
 				return s + " (an Err message replaces that input by a Msg{Err: the error value of that kind})"
 			},
 			doc:  "no doc comment; IsOrdered: 'iterators are exhausted as they are received from the channel' => concatenation of the received iterators, a Msg.Err is an error at its position; Stop drains the channel and stops the remaining iterators",
-			open: "results after the first error (an Err message is consumed by the call that reports it); every result once the request context is cancelled (select between ctx.Done() and the source channel)",
+			open: "results after the first error (an Err message is consumed by the call that reports it); every result once the request context is cancelled (select between ctx.Done() and the source channel); what happens when a received iterator fails with a cancellation-class error (context.Canceled/DeadlineExceeded, bare or wrapped): the source classifies it with storage.IterIsDoneOrCancelled as end of that iterator on the premise that it stems from the caller's own context - not judged from that point on (counted); generic errors and Done look-alikes of received iterators, and Msg.Err of every kind, must surface",
 			build: func(e *env, ins []InSpec, p int) (implIter, checker) {
 				ch := make(chan *iterator.Msg, len(ins))
 				rs := make([]*rin, len(ins))
